@@ -249,6 +249,27 @@ def arr_map_summaries():
                 outs.append((s, mk_option()))
         return outs
 
+    @reg(r'^HashMap::<u16, .*>::contains_key(::<.*>)?$')
+    def hm_contains(ex, st, fn, argv):
+        m = deref(ex, st, argv[0])
+        if not isinstance(m, ArrMap):
+            return NotImplemented
+        return [(st, Bool(z3.Select(m.present, deref(ex, st, argv[1]).bv)))]
+
+    @reg(r'^HashMap::<u16, .*>::insert$')
+    def hm_insert_plain(ex, st, fn, argv):
+        m = deref(ex, st, argv[0])
+        if not isinstance(m, ArrMap):
+            return NotImplemented
+        outs = []
+        for (s, c, occ) in ex.fork_on(st, z3.Select(m.present, argv[1].bv), argv):
+            mm = deref(ex, s, c[0])
+            if not occ:
+                mm.present = z3.Store(mm.present, c[1].bv, z3.BoolVal(True))
+                mm.count = mm.count + 1
+            outs.append((s, mk_option(Unit()) if occ else mk_option()))
+        return outs
+
     @reg(r'^HashMap::<u16, .*>::is_empty$')
     def hm_is_empty(ex, st, fn, argv):
         m = deref(ex, st, argv[0])
